@@ -22,6 +22,7 @@ import (
 	"fmt"
 	"go/ast"
 	"go/token"
+	"math/big"
 	"strings"
 )
 
@@ -32,6 +33,7 @@ type e2l struct {
 	tsub  string // the Go type substituted for the type parameter T in the current instance
 	insts []string
 	recv  string
+	flts  map[string]bool // identifiers holding a float64 in the current function
 }
 
 func (g *e2l) fail(format string, a ...any) string {
@@ -152,6 +154,9 @@ func (g *e2l) expr(e ast.Expr) string {
 			return "(!" + g.expr(x.X) + ")"
 		}
 	case *ast.BinaryExpr:
+		if g.isFloat(x.X) || g.isFloat(x.Y) {
+			return g.floatCmp(x)
+		}
 		l, r := g.expr(x.X), g.expr(x.Y)
 		if id, ok := x.Y.(*ast.Ident); ok && id.Name == "nil" {
 			switch x.Op {
@@ -194,7 +199,74 @@ func (g *e2l) call(x *ast.CallExpr) string {
 	if exprString(x.Fun) == "ansi.Scrub" {
 		return "(Ansi.scrub " + args[0] + ")"
 	}
+	if exprString(x.Fun) == "math.Trunc" && len(x.Args) == 1 && g.isFloat(x.Args[0]) {
+		return "(Go.f64trunc " + args[0] + ")"
+	}
+	if exprString(x.Fun) == "uint64" && len(x.Args) == 1 && g.isFloat(x.Args[0]) {
+		return "(Go.f64toUint64 " + args[0] + ")"
+	}
 	return g.fail("call %s", exprString(x.Fun))
+}
+
+/* does the expression denote a float64 (a bit pattern on the Lean side)? */
+func (g *e2l) isFloat(e ast.Expr) bool {
+	switch x := e.(type) {
+	case *ast.Ident:
+		return g.flts[x.Name]
+	case *ast.ParenExpr:
+		return g.isFloat(x.X)
+	case *ast.CallExpr:
+		return exprString(x.Fun) == "math.Trunc"
+	}
+	return false
+}
+
+/* a natural-number literal that a float64 represents exactly (so that the constant the Go
+   compiler converts it to is the number itself) */
+func exactNatLiteral(e ast.Expr) (string, bool) {
+	bl, ok := e.(*ast.BasicLit)
+	if !ok || bl.Kind != token.INT {
+		return "", false
+	}
+	n, ok := new(big.Int).SetString(bl.Value, 0)
+	if !ok || n.Sign() < 0 {
+		return "", false
+	}
+	if n.Sign() == 0 {
+		return "0", true
+	}
+	/* odd part below 2^53 */
+	m := new(big.Int).Set(n)
+	for m.Bit(0) == 0 {
+		m.Rsh(m, 1)
+	}
+	if m.BitLen() > 53 || n.BitLen() > 1023 {
+		return "", false
+	}
+	return n.String(), true
+}
+
+/* comparisons with a float64 operand */
+func (g *e2l) floatCmp(x *ast.BinaryExpr) string {
+	if g.isFloat(x.X) && g.isFloat(x.Y) {
+		switch x.Op {
+		case token.NEQ:
+			return "(Go.f64ne " + g.expr(x.X) + " " + g.expr(x.Y) + ")"
+		case token.EQL:
+			return "(!Go.f64ne " + g.expr(x.X) + " " + g.expr(x.Y) + ")"
+		}
+	}
+	if g.isFloat(x.X) {
+		if lit, ok := exactNatLiteral(x.Y); ok {
+			switch x.Op {
+			case token.LSS:
+				return "(Go.f64ltNat " + g.expr(x.X) + " " + lit + ")"
+			case token.GEQ:
+				return "(Go.f64geNat " + g.expr(x.X) + " " + lit + ")"
+			}
+		}
+	}
+	return g.fail("float comparison %s", exprString(x))
 }
 
 /* a call that returns (value, error): a Lean term of type `Obj.R _` */
@@ -336,6 +408,9 @@ func (g *e2l) ifChain(ind int, s *ast.IfStmt, rest []ast.Stmt) {
 	case *ast.CallExpr:
 		/* if v, err := call; err != nil { … } else … */
 		if b == "err" && exprString(s.Cond) == "err!=nil" {
+			if ix, ok := r.Fun.(*ast.IndexExpr); ok && typeStringSub(ix.Index, g.tsub) == "float64" {
+				g.flts[a] = true
+			}
 			g.line(ind, "match "+g.callR(r)+" with")
 			g.line(ind, "| .error err =>")
 			g.block(ind+1, s.Body.List)
@@ -365,6 +440,7 @@ func (g *e2l) ifChain(ind int, s *ast.IfStmt, rest []ast.Stmt) {
 
 func (g *e2l) function(fd *ast.FuncDecl, tsub string) {
 	g.tsub = tsub
+	g.flts = map[string]bool{}
 	name := fd.Name.Name
 	params := []string{"(L : Obj.Libs Time Url)"}
 	g.recv = ""
